@@ -422,7 +422,8 @@ pub fn probe_workers(port: u16, lt_pk: &[u8], want: usize, max_clients: usize, a
     let mut sent = 0;
     let mut bad = 0;
     let mut k = 0u64;
-    while sent < max_clients && keys.len() < want {
+    let mut silent_waves = 0;
+    while sent < max_clients && keys.len() < want && silent_waves < 2 {
         // a small wave of sockets at a time
         let wave: Vec<(UdpSocket, Vec<u8>)> = (0..8.min(max_clients - sent))
             .map(|_| {
@@ -436,7 +437,12 @@ pub fn probe_workers(port: u16, lt_pk: &[u8], want: usize, max_clients: usize, a
             .collect();
         sent += wave.len();
         let mut buf = [0u8; 4096];
-        for (s, req) in &wave {
+        let before: usize = keys.values().sum::<usize>() + bad;
+        for (wi, (s, req)) in wave.iter().enumerate() {
+            if wi > 0 && keys.values().sum::<usize>() + bad == before {
+                // nothing answered the first socket of this wave: do not wait the full timeout on the rest
+                s.set_read_timeout(Some(Duration::from_millis(150))).unwrap();
+            }
             loop {
                 match s.recv_from(&mut buf) {
                     Ok((l, _)) => {
@@ -459,6 +465,11 @@ pub fn probe_workers(port: u16, lt_pk: &[u8], want: usize, max_clients: usize, a
                     Err(_) => break,
                 }
             }
+        }
+        if keys.values().sum::<usize>() + bad == before {
+            silent_waves += 1; // a dead server must not be waited for 48N+32 timeouts
+        } else {
+            silent_waves = 0;
         }
     }
     (keys, sent, bad)
